@@ -37,7 +37,8 @@ ASSUMPTIONS = ['stop --now --now and stop --kill not exercised here',
                'hanging jobs are not generated (a clean stop would wait '
                'forever)']
 MIN = {'kind:cycle_point': 25, 'kind:task': 20, 'kind:clean': 25,
-       'kind:now': 25, 'restarts': 60}
+       'kind:now': 25, 'restarts': 60,
+       'stop_task_planned_to_finish_incomplete': 5}
 NCASES = {'quick': 500, 'thorough': 6000}
 MONS = ['c26', 'rsnap']
 
@@ -84,7 +85,9 @@ def run_case(ctx, i, rng):
             ctx.evaluated(('discard', i), nontrivial=False)
             return
         r0, r1 = results
-        if r0.get('iterations', 0) < at:
+        if r0.get('iterations', 0) <= at:
+            # (== at: the run was ending by itself in the very iteration
+            # that executed the request)
             ctx.count('discard_run_ended_before_request')
             ctx.evaluated(('early', i), nontrivial=False)
             return
@@ -137,6 +140,35 @@ def run_case(ctx, i, rng):
     elif kind == 'task':
         inst = sorted(model['run'], key=lambda x: (x[1], x[0]))
         n, p = rng.choice(inst)
+        if loose:
+            # prefer an instance whose job succeeds without a required
+            # custom output used in the graph (finishes incomplete)
+            def incomplete(x):
+                plan = (case['plans'].get(f'{x[1]}/{x[0]}') or {}).get(
+                    'tries') or [{}]
+                req = {o for o, spec in (gt['tasks'][x[0]].get('outputs')
+                                         or {}).items()
+                       if spec.get('required') and spec.get('used')}
+                return plan[-1].get('result') == 'succeeded' and bool(
+                    req - set(plan[-1].get('outputs') or []))
+            inc = [x for x in inst if incomplete(x)]
+            if not inc:
+                # make one: a job that succeeds without its required output
+                cand = [x for x in inst if any(
+                    spec.get('required') and spec.get('used')
+                    for spec in (gt['tasks'][x[0]].get('outputs')
+                                 or {}).values())]
+                if cand:
+                    x = rng.choice(cand)
+                    tries = case['plans'][f'{x[1]}/{x[0]}']['tries']
+                    tries[-1] = dict(tries[-1], result='succeeded',
+                                     outputs=[], submit_ok=True)
+                    model = gtmodel.closure(case)
+                    inst = sorted(model['run'], key=lambda y: (y[1], y[0]))
+                    inc = [y for y in inst if incomplete(y)]
+            if inc:
+                n, p = rng.choice(inc)
+                ctx.count('stop_task_planned_to_finish_incomplete')
         tid = f'{p}/{n}'
         detail['stop_task'] = tid
         sc = [{'at': at, 'cmd': 'stop', 'args': {'task': tid}}]
@@ -179,7 +211,9 @@ def run_case(ctx, i, rng):
             for sid, it in (((r.get('monitors') or {}).get('end') or {}).get(
                     'succeeded_iters') or []):
                 if sid == tid and (k > 0 or it > at):
-                    if k == 0 and midstop and it > at + 1:
+                    if k == 0 and midstop and it >= at + 1:
+                        # (the `stop --now` issued at iteration at+1 is
+                        # executed before that iteration's messages)
                         # it succeeded while the scheduler was already
                         # shutting down on the later `stop --now`
                         ctx.count('stop_task_succeeded_during_shutdown')
@@ -217,7 +251,9 @@ def run_case(ctx, i, rng):
             ctx.evaluated(('discard', i), nontrivial=False)
             return
         r0, r1 = results
-        if r0.get('iterations', 0) < at:
+        if r0.get('iterations', 0) <= at:
+            # (== at: the run was ending by itself in the very iteration
+            # that executed the request)
             ctx.count('discard_run_ended_before_request')
             ctx.evaluated(('early', i), nontrivial=False)
             return
